@@ -314,6 +314,7 @@ type Opts struct {
 	TagOptions bool // json tag options omitempty / string (C02 only: the generated types cannot express them)
 	NoNamedRec bool // no `type Tree []Tree` (the SQL JSON validators refuse recursive named containers)
 	DataIgnore bool // some fields tagged gomacro-data:"ignore"
+	DigitKeys     bool // JSON keys starting with a digit in the DashKey witness (C03 only: the Dart generator derives field identifiers from the keys)
 	OmitEmpty     bool // a struct whose map / slice fields are tagged omitempty: Go leaves the key out when they are empty (C04 only)
 	OddEnumValues bool // a string enum whose values need escaping (backslash, double and single quote, empty)
 }
@@ -508,9 +509,12 @@ func Random(id int, rng *rand.Rand, o Opts) *Prog {
 	}
 	if o.DashTags {
 		// `json:"-,"` names the key "-" (only the exact tag "-" hides a field)
-		add(Decl{K: "struct", Name: "DashKey", Fields: []Field{{Name: "Lo", Type: Basic("int"), Tag: `json:"-,"`}, {Name: "Hidden", Type: Basic("string"), Tag: `json:"-"`}, {Name: "Hi", Type: Basic("int")},
+		dk := []Field{{Name: "Lo", Type: Basic("int"), Tag: `json:"-,"`}, {Name: "Hidden", Type: Basic("string"), Tag: `json:"-"`}, {Name: "Hi", Type: Basic("int")}}
+		if o.DigitKeys {
 			// keys that are not identifiers: a leading digit (not a number either), the spelling of a number
-			{Name: "First", Type: Basic("string"), Tag: `json:"1st"`}, {Name: "Exp", Type: Basic("int"), Tag: `json:"1e3"`}}})
+			dk = append(dk, Field{Name: "First", Type: Basic("string"), Tag: `json:"1st"`}, Field{Name: "Exp", Type: Basic("int"), Tag: `json:"1e3"`})
+		}
+		add(Decl{K: "struct", Name: "DashKey", Fields: dk})
 	}
 	if o.Embedded {
 		// embedded NON-struct types are ordinary fields named after their type
